@@ -120,6 +120,7 @@ var enumCtors = map[string][]string{
 	"AttributeValueType": {"AtInt", "AtHex", "AtFloat", "AtString", "AtEnum"},
 	"AccessType":         {"AccUnrestricted", "AccRead", "AccWrite", "AccReadWrite"},
 }
+
 // Parser methods translated (compositions of other helpers); NOT translated = hand model only: nextToken peekToken
 // nextRune peekRune useWhitespace (scanner access), string (labelled loop over runes, strings.Builder), int (F12
 // conversion arithmetic), anyOf (variadic range), failf
@@ -220,10 +221,10 @@ func zeroOf(n ast.Node, t types.Type) string {
 // ---------------------------------------------------------------------------------------------- method context
 
 type mctx struct {
-	recv      string            // receiver name
-	recvT     string            // receiver struct name
-	fn        string            // Coq name of the function being translated
-	helper    bool              // a Parser helper method (no struct receiver; may return a value)
+	recv      string // receiver name
+	recvT     string // receiver struct name
+	fn        string // Coq name of the function being translated
+	helper    bool   // a Parser helper method (no struct receiver; may return a value)
 	hasResult bool
 	parser    string            // name of the *Parser parameter
 	vars      map[string]string // variables in scope -> Coq type
